@@ -186,6 +186,17 @@ Proof.
     + cbn [snd]. rewrite has_crash_app. simpl. rewrite orb_false_r. reflexivity.
 Qed.
 
+Lemma pp_guard_inl f c t p st ls stg eg ls1 : pp_guard c t p st ls = inl (stg, eg, ls1) ->
+  p_levels stg = p_levels st /\ p_hwm stg = p_hwm st /\ p_has_bp stg = true /\ esum (eff_net f) eg = 0 /\ has_crash eg = false /\
+  (eg = [] \/ exists b, eg = leader_effects c t p b).
+Proof.
+  unfold pp_guard. destruct (p_has_bp st) eqn:E.
+  - intros H. injection H as <- <- <-. repeat split; auto.
+  - destruct (next_lres ls) as [[b|e] r]; [|discriminate]. intros H. injection H as <- <- <-. cbn [p_levels p_hwm p_has_bp].
+    split; [reflexivity|]. split; [reflexivity|]. split; [reflexivity|]. split; [apply net_leader_effects|].
+    split; [apply crash_leader_effects|right; eexists; reflexivity].
+Qed.
+
 Lemma pp_balance f c t p st m ab stamp ls : stable f ->
   has_crash (snd (pp_step c t p st m ab stamp ls)) = false ->
   pp_w f (fst (pp_step c t p st m ab stamp ls)) + esum (eff_net f) (snd (pp_step c t p st m ab stamp ls)) = pp_w f st + f m.
@@ -195,17 +206,18 @@ Proof.
   set (e1 := if p_has_bp st && ab then [EUnref] else []).
   assert (H1 : pp_w f st1 = pp_w f st) by (subst st1; destruct (p_has_bp st && ab); reflexivity).
   assert (He1 : esum (eff_net f) e1 = 0) by (subst e1; destruct (p_has_bp st && ab); reflexivity).
-  assert (HF : forall st' pre, pp_w f (fst (pp_forward c t p st' m stamp ls pre)) + esum (eff_net f) (snd (pp_forward c t p st' m stamp ls pre))
+  assert (HF : forall st' pre ls', pp_w f (fst (pp_forward c t p st' m stamp ls' pre)) + esum (eff_net f) (snd (pp_forward c t p st' m stamp ls' pre))
                  = pp_w f st' + f m + esum (eff_net f) pre) by (intros; apply pp_forward_balance; assumption).
   unfold pp_w in *.
   destruct (p_hwm st1 <? m_retries m)%nat.
-  - destruct (c_retry_max c <? m_retries m)%nat;
-      [cbn [snd]; rewrite has_crash_app; simpl; rewrite orb_true_r; discriminate|].
-    destruct (negb (p_has_bp st1));
-      [cbn [snd]; rewrite has_crash_app; simpl; rewrite orb_true_r; discriminate|].
-    intros _. rewrite HF. rewrite esum_app, He1.
-    cbn [p_levels]. rewrite levels_w_set_chaser.
-    unfold eff_net; simpl. lia.
+  - destruct (pp_guard c t p st1 ls) as [[[stg eg] ls1]|e] eqn:G.
+    + destruct (pp_guard_inl f _ _ _ _ _ _ _ _ G) as (GL & GH & _ & GN & GC & _).
+      destruct (c_retry_max c <? m_retries m)%nat;
+        [cbn [snd]; rewrite !has_crash_app; simpl; rewrite !orb_true_r; discriminate|].
+      intros _. rewrite HF. rewrite !esum_app, He1, GN.
+      cbn [p_levels]. rewrite levels_w_set_chaser, GL.
+      unfold eff_net; simpl. lia.
+    + intros _. cbn [fst snd]. rewrite esum_app, He1. unfold eff_net; simpl. lia.
   - destruct (0 <? p_hwm st1)%nat.
     + destruct (m_retries m <? p_hwm st1)%nat.
       * destruct (length (p_levels st1) <=? m_retries m)%nat eqn:El;
